@@ -198,9 +198,23 @@ def float_powf(m, ref, args, t, sp):
 
 
 def float_minmax(name):
+    neutral = F.INF if name == "min" else F.NINF
+
     def h(m, ref, args, t, sp):
         a, b = load(m, args[0]), load(m, args[1])
         if is_float(a) and is_float(b):
+            # min(x, +inf) = x and max(x, -inf) = x exactly when x is not NaN (IEEE minNum/maxNum);
+            # when x is NaN the other operand (the neutral literal) is returned
+            if b == neutral and not F.is_lit(a):
+                st = m.order.nan_status(a)
+                if st is False:
+                    return a
+            if a == neutral and not F.is_lit(b):
+                st = m.order.nan_status(b)
+                if st is False:
+                    return b
+            if a == b and m.order.nan_status(a) is False:
+                return a
             return F.fn(name, a, b)
         return ("opq", m.new_name(name))
     return h
